@@ -415,18 +415,16 @@ Proof. intros; constructor; [simpl; split; [assumption|lia]|assumption]. Qed.
 Lemma ext_frames_length : forall st st', ext st st' -> List.length (frames st) <= List.length (frames st').
 Proof. intros st st' (L & _); exact L. Qed.
 
-Lemma ev_defaults_wf : forall os st sc f, wf_state st -> wf_scope st sc -> f < List.length (frames st) ->
-  good_res st ptrue (ev_defaults m ev st sc f os).
+Lemma ev_defaults_wf : forall os st sc bnd, wf_state st -> wf_scope st sc ->
+  good_res st (fun s sc' => wf_scope s sc') (ev_defaults m ev st sc bnd os).
 Proof.
-  induction os as [|[x e] os IH]; intros st sc f W S F; simpl; [apply good_ret; [assumption|exact I]|].
-  destruct (fr_index (get_frame st f) x); [apply IH; assumption|].
-  eapply good_bind; [apply Hev; [assumption|apply wf_scope_cur; assumption]|]. intros v s E Ws Vs.
+  induction os as [|[x e] os IH]; intros st sc bnd W S; simpl; [apply good_ret; assumption|].
+  destruct (existsb (String.eqb x) bnd); [apply IH; assumption|].
+  eapply good_bind; [apply Hev; assumption|]. intros v s E Ws Vs.
   apply good_bindo; [assumption|]. intros a Ha.
-  eapply good_from; [apply ext_bind_in, ext_refl|].
-  apply IH.
-  - apply wf_bind_in; [assumption|eapply wf_store_red; eauto].
-  - eapply wf_scope_ext; [apply ext_bind_in, ext_refl|]. eapply wf_scope_ext; eauto.
-  - pose proof (ext_frames_length _ _ E). pose proof (ext_frames_length _ _ (ext_bind_in s s f x a (ext_refl s))). lia.
+  apply (good_alloc_then scope s [(x, a)] sc (fun s sc' => wf_scope s sc') (fun st2 sc2 => ev_defaults m ev st2 sc2 (x :: bnd) os)); auto.
+  - constructor; [|constructor]. simpl. eapply wf_store_red; eauto.
+  - eapply wf_scope_ext; eauto.
 Qed.
 Lemma apply_fn_wf : forall st c args, wf_state st -> wf_callable st c -> wf_vals st args ->
   good_res st wf_val (apply_fn m ev st c args).
@@ -446,11 +444,8 @@ Proof.
     eapply good_from; [exact E1|].
     destruct (drop os (List.length args - List.length ps)) as [|d ds].
     + apply ev_seq_wf; [assumption|assumption|apply wf_nil].
-    + eapply good_bind; [apply ev_defaults_wf; [exact W1| |exact F1]|].
-      * eapply wf_scope_ext; [exact E1|exact C].
-      * intros u s2 E2 W2 _. apply ev_seq_wf; [assumption| |apply wf_nil].
-        apply wf_scope_cur; [pose proof (ext_frames_length _ _ E2); lia|].
-        eapply wf_scope_ext; [exact E2|]. eapply wf_scope_ext; [exact E1|exact C].
+    + eapply good_bind; [apply ev_defaults_wf; [exact W1|exact S1]|].
+      intros sc1 s2 E2 W2 S2. apply ev_seq_wf; [assumption|exact S2|apply wf_nil].
   - apply good_out; [assumption|]. intros a Ha. eapply wf_prim; eauto.
 Qed.
 Lemma ev_map_wf : forall rows st c, wf_state st -> wf_callable st c -> Forall (wf_vals st) rows ->
